@@ -193,6 +193,7 @@ def generate(seed, tier, prop):
     return {"engine": ENGINE, "prop": prop, "seed": seed, "tier": tier, "nets": nets, "couplings": couplings,
             "const": const, "profiles": profiles, "n_steps": T, "run": run, "faults": faults,
             "permute": rng.random() < 0.5, "perm_seed": rng.randrange(1 << 30),
+            "restart": (rng.choice(["json_str", "json_enc"]) if (prop == "C15" or rng.random() < 0.15) and kind in ("control", "control2") else None),
             "knobs": {"fault_free": fault_free, "bad_steps": bad}, "ops": []}
 
 
@@ -470,11 +471,69 @@ def _execute(trace, res, solver):
                 res.count("probe:order-permutation-compared")
             except CONV_ERRORS as e:
                 res.violate("C20", "C20/order-dependent:outcome", repr(e)[:100])
+        # ---- restart of the whole multinet (C15: multi-energy nets holding controllers) ------------------
+        if trace.get("restart") and raised is None and expect_ok and not faulted:
+            mn, nets = _restart_multinet(res, mn, nets, trace["restart"])
+            if mn is None:
+                return
         # ---- second run: round trip power -> gas -> power ----------------------------------------
         if run["kind"] == "control2" and raised is None and expect_ok and not faulted:
             _round_trip(res, trace, mn, nets, model, kw, solver)
         return
     _execute_ts(trace, res, solver, kw, cps)
+
+
+def _restart_multinet(res, mn, nets, path):
+    """Save the MultiNet (member nets + coupling controllers), drop it, load it."""
+    from . import e1
+    try:
+        if path == "json_enc":
+            loaded = pp.from_json_string(pp.to_json(mn, encryption_key=e1.KEY), encryption_key=e1.KEY)
+        else:
+            loaded = pp.from_json_string(pp.to_json(mn))
+    except Exception as e:
+        res.violate("C15", "C15/multinet-roundtrip-raised:%s" % type(e).__name__, repr(e)[:200])
+        return None, None
+    res.count("restart:multinet-%s" % path)
+    if type(loaded).__name__ != "MultiNet" or sorted(loaded["nets"]) != sorted(mn["nets"]):
+        res.violate("C15", "C15/lost:multinet-structure@json", "%s %s" % (type(loaded).__name__, sorted(getattr(loaded, "nets", {}))))
+        return None, None
+    for nn in sorted(mn["nets"]):
+        a, b = mn["nets"][nn], loaded["nets"][nn]
+        if type(a) is not type(b):
+            res.violate("C15", "C15/lost:member-net-type@json", "%s: %s -> %s" % (nn, type(a).__name__, type(b).__name__))
+            continue
+        for x in e1.compare_loaded(a, b, path):
+            if nn == "power":
+                # pandapower's own serialisation is not pandapipes' business beyond the values the couplings use
+                tbl, _, col = x.partition(".")
+                col = col.split(":")[0]
+                if tbl not in ("bus", "load", "sgen", "line", "ext_grid", "res_bus") or \
+                        col not in ("p_mw", "q_mvar", "scaling", "bus", "in_service", "vn_kv", "vm_pu", "from_bus", "to_bus", "length_km", "@index", "@columns"):
+                    continue
+            res.violate("C15", "C15/lost:%s%s@json" % ("power." if nn == "power" else "", x), "member %s" % nn)
+    a, b = mn["controller"], loaded["controller"]
+    if len(a) != len(b) or list(a.index) != list(b.index):
+        res.violate("C15", "C15/lost:multinet.controller@json", "%d -> %d rows" % (len(a), len(b)))
+    else:
+        for c in ("in_service", "order", "level", "initial_run"):
+            if snap_canon(list(a[c].values)) != snap_canon(list(b[c].values)):
+                res.violate("C15", "C15/lost:multinet.controller.%s@json" % c, "")
+        for x, y in zip(a.object.values, b.object.values):
+            if type(x).__name__ != type(y).__name__:
+                res.violate("C15", "C15/lost:multinet.controller.object:type@json", "%s -> %s" % (type(x).__name__, type(y).__name__))
+                continue
+            dx, dy = vars(x), vars(y)
+            bad = sorted(k for k in set(dx) | set(dy) if k not in ("fluid",) and snap_canon(dx.get(k, "<absent>")) != snap_canon(dy.get(k, "<absent>")))
+            if bad:
+                res.violate("C15", "C15/lost:multinet.controller.object.%s@json" % bad[0], "%s: %r -> %r" % (type(x).__name__, dx.get(bad[0]), dy.get(bad[0])))
+    res.oracle_checks += 1
+    return loaded, {nn: loaded["nets"][nn] for nn in sorted(loaded["nets"])}
+
+
+def snap_canon(o):
+    from .snap import canon_deep
+    return canon_deep(o)
 
 
 def _independent(cps):
